@@ -312,7 +312,7 @@ func (fr *Frame) locksetCheck(in ssa.Instruction, p *Ptr, what string) {
 		anchor = FuncName(fr.fn) + anchor
 	}
 	vc.addObl(&Obligation{Kind: "lockset", Anchor: anchor, Props: fr.c.Props, Desc: fmt.Sprintf("%s of %s at %s:%d happens with its mutex held", what, shortType(p.Heap), shortFile(pos.Filename), pos.Line),
-		File: pos.Filename, Line: pos.Line, Goals: []Goal{{fr.here(), cond}}, Mark: vc.S.Mark()})
+		File: pos.Filename, Line: pos.Line, Goals: []Goal{{Reach: fr.here(), Cond: cond, Where: fmt.Sprintf("%s:%d", shortFile(pos.Filename), pos.Line)}}, Mark: vc.S.Mark()})
 }
 
 // guardedBy returns the heap names declared `guarded <mutexfield>: f1, f2` for the mutex field.
@@ -359,7 +359,7 @@ func (fr *Frame) lockInvariant(in ssa.Instruction, mu *Val, acquire bool) {
 			anchor = FuncName(fr.fn) + anchor
 		}
 		vc.addObl(&Obligation{Kind: "lockinv", Anchor: anchor, Props: fr.c.Props, Desc: fmt.Sprintf("invariant of %s holds at release: %s (%s:%d)", li.Mutex, li.Cl.Src, shortFile(pos.Filename), pos.Line),
-			File: pos.Filename, Line: pos.Line, Goals: []Goal{{fr.here(), cond}}, Mark: vc.S.Mark()})
+			File: pos.Filename, Line: pos.Line, Goals: []Goal{{Reach: fr.here(), Cond: cond, Where: fmt.Sprintf("%s:%d", shortFile(pos.Filename), pos.Line)}}, Mark: vc.S.Mark()})
 	}
 }
 
